@@ -373,7 +373,32 @@ func init() {
 			marks = marks[:0]
 			ev := map[string]any{"ev": "c14", "src": src, "ast": ast, "chunks": parts, "terms": []any{}, "slots": []any{}, "err": false, "errtext": "", "ret": 0, "detail": "", "detail2": "",
 				"detailPanic": false, "retAfter": 0, "varsBefore": "", "varsAfter": "", "seedBefore": "", "seedAfter": "", "aligned": false, "shownValues": []int64{}, "annots": []string{}}
-			err, pan := runOne(vm, src)
+			// a third of the expressions are parsed once and evaluated twice, the text requested in between: the text observed below
+			// must be the one of the SECOND evaluation (whose rolls and result are the ones recorded)
+			var err error
+			var pan any
+			if r.Intn(3) == 0 {
+				err, pan = func() (e error, p any) {
+					defer func() {
+						if rr := recover(); rr != nil {
+							p = rr
+						}
+					}()
+					if e = vm.Parse(src); e != nil {
+						return
+					}
+					if e = vm.RunAfterParsed(); e != nil {
+						return
+					}
+					_ = vm.GetDetailText()
+					resetRolls(nil, false)
+					marks = marks[:0]
+					e = vm.RunAfterParsed()
+					return
+				}()
+			} else {
+				err, pan = runOne(vm, src)
+			}
 			if err != nil || pan != nil || vm.RestInput != "" {
 				ev["err"] = true
 				ev["errtext"] = fmt.Sprint(err, pan, vm.RestInput)
